@@ -49,6 +49,14 @@ def gen_cases(tier, seed):
     for i in range(nu):
         prog = c01.unit_program(_random.Random(seed * 7919 + i), i)
         cs.append({'base': {'src': 'text', 'text': _render.render(prog)[0], 'seed': i}, 'k': i, 'nscripts': 1})
+    # error-handler programs (the C10 family): module-level handlers entered from procedure frames, RESUME into them
+    from . import c10
+    for i in range(30 if tier == 'quick' else 600):
+        pl = c10.plan(_random.Random(seed * 6007 + i))
+        if pl['place'] in ('sub', 'function'):
+            pl['steps'] = [s_ for s_ in pl['steps'] if s_['k'] != 'gosub']
+        t = c10.build(pl, _random.Random(seed * 6007 + i + 1))[0]
+        cs.append({'base': {'src': 'text', 'text': t, 'seed': i, 'scriptv': {}}, 'k': i, 'nscripts': 1})
     for i, t in enumerate(DEVICE_ARG_FORMS):
         cs.append({'base': {'src': 'text', 'text': t, 'seed': i}, 'k': i, 'nscripts': 3, 'allcfg': True})
     return cs
